@@ -95,6 +95,32 @@ Section Top.
     rewrite (qsortR_retries_forever cmp contract x y 0 H). reflexivity.
   Qed.
 
+  (** fuel is a device of the model only: once a run returns, more fuel
+      gives the same array, rand() counter and callback log *)
+  Lemma qsort_fuel_mono f : forall al rnd k (a : list A) r,
+    qsort cmp f al rnd k a = Ok r -> forall f', f <= f' -> qsort cmp f' al rnd k a = Ok r.
+  Proof.
+    induction f as [|f IH]; intros al rnd k a r H f' Hf.
+    - rewrite qsort_0 in H. destruct (1 <? length a) eqn:L; [discriminate|].
+      destruct f'; [rewrite qsort_0|rewrite qsort_unfold]; rewrite L; auto.
+    - destruct f' as [|f']; [lia|]. rewrite qsort_unfold in *.
+      destruct (1 <? length a); auto.
+      bind_inv H. destruct x as [[[a1 p] k1] l1]. cbn [bind].
+      destruct (negb (is_m al) || (3 <? length a)); auto.
+      bind_inv H. destruct x as [[m a2] l2]. cbn [bind].
+      bind_inv H. rewrite (IH _ _ _ _ _ E1 f') by lia. destruct x as [[lo k2] l3]. cbn [bind].
+      bind_inv H. rewrite (IH _ _ _ _ _ E2 f') by lia. destruct x as [[hi k3] l4]. cbn [bind].
+      auto.
+  Qed.
+
+  Lemma sort_extra_irrelevant sel extra extra' rnd (a : list A) r :
+    sort cmp sel extra rnd a = Ok r -> extra <= extra' -> sort cmp sel extra' rnd a = Ok r.
+  Proof.
+    unfold sort, sort_alg. intros H Hx.
+    destruct (decode sel); auto;
+      (bind_inv H; rewrite (qsort_fuel_mono _ _ _ _ _ _ E (length a + extra')) by lia; auto).
+  Qed.
+
   Lemma le_transitive : Relations_1.Transitive le.
   Proof. intros x y z. apply (le_trans cmp contract). Qed.
 
